@@ -138,7 +138,7 @@ KIND(tmap) {
             tmap_close(ep[0]);
             dup2(ep[1], 2);
             tmap_close(ep[1]);
-            alarm(60);
+            alarm(5);
             tmap_child(line);
             _exit(0);
         }
